@@ -91,7 +91,7 @@ class C05(Prop):
         "sets built from Specifier objects with their own overrides are covered by the general theorems + correspondence",
         "hash(): only 'equal sets have the same multiset of member keys' is proved; hash values are CPython's",
     ]
-    budget = {"quick": (8000, 2500), "thorough": (130000, 50000)}
+    budget = {"quick": (6000, 1500), "thorough": (130000, 50000)}
 
     # ------------------------------------------------------------ correspondence
     def gen_cases(self, rng, n):
